@@ -3,7 +3,7 @@
 #   full suite passes with the patch, demo fails with it, demo passes without it.
 # Writes /tmp/seed/out-<id>/<m>/verify.json
 id=$1; m=$2
-wt=/tmp/seed/wt-$id; out=/tmp/seed/out-$id/$m
+base=${SEED_BASE:-/tmp/seed}; wt=$base/wt-$id; out=$base/out-$id/$m
 cd $wt || exit 2
 git checkout -q -- . ; git clean -fdq -e target
 demo_dst=$(grep -oE 'crates/[A-Za-z0-9_/-]+\.rs' $out/demo.txt | head -1)
